@@ -22,6 +22,14 @@ class Inadmissible(Exception):
     pass
 
 
+def private(obj):
+    """A deep copy of a cached per-process prototype: prototypes themselves are never called, so no state a
+    component may keep can travel from one simulated run to the next (runs stay pure functions of their case)."""
+    import copy
+
+    return copy.deepcopy(obj) if isinstance(obj, torch.nn.Module) else obj
+
+
 # --------------------------------------------------------------------------- code specs
 
 
@@ -350,7 +358,7 @@ def codebook(spec: dict) -> Optional[List[int]]:
         return None
     msgs = torch.tensor(list(itertools.product([0, 1], repeat=k)), dtype=torch.float32)
     with contextlib.redirect_stdout(io.StringIO()):
-        cw = enc(msgs)
+        cw = private(enc)(msgs)
     weights = (2 ** torch.arange(n - 1, -1, -1, dtype=torch.int64))
     words = ((cw.round().to(torch.int64) % 2) * weights).sum(dim=1).tolist()
     _MISC_CACHE[key] = words
